@@ -205,15 +205,13 @@ Proof.
   apply map_ext_in. intros j Hj. unfold vals_of. cbn. replace (j + 1 - 1) with j by lia. reflexivity.
 Qed.
 
-(* C14, abstract tracker: for every n >= 1 and every permutation sigma of the operators 0..n-2 *)
-Theorem eval_binary_is_cart : forall (nums : list D) (sigma : list nat),
-  nums <> [] -> NoDup sigma -> (forall i, In i sigma <-> i < length nums - 1) ->
-  eval_binary dflt opf nums (length nums - 1) sigma
-    = Ok (eval_tree (vals_of nums) (cart (length sigma) sigma 0)).
+(* the array machine computes what the chain machine computes *)
+Theorem eval_binary_run : forall (x : D) (rest : list D) (sigma : list nat) (v : D),
+  NoDup sigma -> (forall i, In i sigma <-> i < length rest) ->
+  run opf sigma x (chain_from (vals_of (x :: rest)) 0 (length rest)) = Some (v, []) ->
+  eval_binary dflt opf (x :: rest) (length rest) sigma = Ok v.
 Proof.
-  intros nums sigma Hne ND Hiff.
-  destruct nums as [|x rest]; [congruence|].
-  replace (length (x :: rest) - 1) with (length rest) in * by (cbn [length]; lia).
+  intros x rest sigma v ND Hiff Hrun.
   unfold eval_binary.
   assert (Hall : forallb (fun i => i <? length rest) sigma = true).
   { apply forallb_forall. intros i Hi. apply Nat.ltb_lt. apply Hiff. exact Hi. }
@@ -224,12 +222,23 @@ Proof.
   - intros i Hi. rewrite (chain_init x), chain_from_ids. apply in_seq. apply Hiff in Hi. lia.
   - change ((x, 0) :: init_segs rest) with (init_segs (x :: rest)) in Ha.
     rewrite conc_n_init, conc_i_init in Ha. rewrite Ha.
-    rewrite (chain_init x) in Hr.
-    assert (Hc := run_is_cart (length sigma) sigma (vals_of (x :: rest)) 0 (length rest) (le_n _) ND).
-    change (vals_of (x :: rest) 0) with x in Hc.
-    rewrite Hc in Hr.
-    + inversion Hr; subst. reflexivity.
-    + intros i. rewrite Hiff. lia.
+    rewrite (chain_init x) in Hr. rewrite Hrun in Hr.
+    inversion Hr; subst. reflexivity.
+Qed.
+
+(* C14, abstract tracker: for every n >= 1 and every permutation sigma of the operators 0..n-2 *)
+Theorem eval_binary_is_cart : forall (nums : list D) (sigma : list nat),
+  nums <> [] -> NoDup sigma -> (forall i, In i sigma <-> i < length nums - 1) ->
+  eval_binary dflt opf nums (length nums - 1) sigma
+    = Ok (eval_tree (vals_of nums) (cart (length sigma) sigma 0)).
+Proof.
+  intros nums sigma Hne ND Hiff.
+  destruct nums as [|x rest]; [congruence|].
+  replace (length (x :: rest) - 1) with (length rest) in * by (cbn [length]; lia).
+  apply eval_binary_run; [exact ND|exact Hiff|].
+  assert (Hc := run_is_cart (length sigma) sigma (vals_of (x :: rest)) 0 (length rest) (le_n _) ND).
+  change (vals_of (x :: rest) 0) with x in Hc.
+  apply Hc. intros i. rewrite Hiff. lia.
 Qed.
 
 Theorem eval_binary_leaves : forall (nums : list D) (sigma : list nat),
